@@ -550,11 +550,9 @@ fn write_chroms_with_zooms(
             let ghost zmb = zooms_map@;
             let zoom = level_present(zooms_map.get_mut(&resolution));
             let data_write_data = data_write_future;
-
-            let ghost zh__ = data_write_data.cid();
             let (_num_sections, uncompressed_buf_size) = data_write_data.unwrap()?;
 
-            proof { done__ = done__.insert(zh__); }
+            proof { done__ = done__.insert(zl[jj].data_write_future.cid()); }
             max_uncompressed_buf_size = max_uncompressed_buf_size.max(uncompressed_buf_size);
             zoom.0.push(sections.into_iter());
             zoom.2.replace(data.await_real_file(Ghost(done__)));
